@@ -120,7 +120,7 @@ func (r *request) buildHTTP(mediaType, basePath string, producers map[string]run
 	r.buf = bytes.NewBuffer(nil)
 	if r.payload != nil || len(r.formFields) > 0 || len(r.fileFields) > 0 {
 		body = r.buf
-		if r.isMultipart(mediaType) {
+		if r.isMultipart(mediaType) && (len(r.formFields) > 0 || len(r.fileFields) > 0) {
 			pr, pw = io.Pipe()
 			body = pr
 		}
@@ -218,7 +218,10 @@ func (r *request) buildHTTP(mediaType, basePath string, producers map[string]run
 			goto DoneChoosingBodySource
 		}
 
-		producer := producers[mediaType]
+		producer, ok := producers[mediaType]
+		if !ok || producer == nil {
+			return nil, fmt.Errorf("no producer registered for media type %q", mediaType)
+		}
 		if err := producer.Produce(r.buf, r.payload); err != nil {
 			return nil, err
 		}
